@@ -17,6 +17,7 @@
 from types import FrameType
 from typing import List
 
+from deep import logging
 from deep.api.tracepoint.trigger import Location
 
 from deep.processor.context.action_results import ActionCallback
@@ -71,7 +72,11 @@ class CallbackContext(Location, ActionCallback):
         :return: True, to keep this callback until next match.
         """
         for callback in self.__callbacks:
-            callback.process(ctx, event, frame, arg)
+            try:
+                callback.process(ctx, event, frame, arg)
+            except BaseException:
+                # one failing callback (e.g. a plugin span that cannot be closed) must not stop the others
+                logging.exception("Cannot process callback %s", callback)
 
     @property
     def event(self) -> str:
